@@ -92,6 +92,11 @@ type Options struct {
 	Epoch              EpochMode
 	MempoolCfg         *config.Mempool
 	Tweak              func(c *config.ConsensusConf)
+	// GenesisTweak pre-populates the state a replica generates its genesis block from (called on
+	// every replica that boots on a database without a chain, before InitializeChain): what it
+	// writes becomes part of the genesis state, e.g. a network that already consists of two shards.
+	// Must be a pure function of the world.
+	GenesisTweak func(w *World, st *state.StateDB)
 }
 
 type EpochMode int
@@ -345,6 +350,9 @@ func (r *Replica) boot() error {
 	r.Ipfs = w.sharedIpfs()
 	r.Chain = blockchain.NewBlockchain(r.Cfg, r.DB, r.TxPool, as, r.Ipfs, r.SecStore, r.Bus, r.Offline, ks, sm, r.Upgrader)
 	r.Epoch = newEpochDriver(r)
+	if w.Opt.GenesisTweak != nil && r.Chain.GetHead() == nil {
+		w.Opt.GenesisTweak(w, as.State)
+	}
 	if err := r.Chain.InitializeChain(); err != nil {
 		return err
 	}
